@@ -1,6 +1,7 @@
 package main
 
 import (
+	"fmt"
 	"go/types"
 
 	"golang.org/x/tools/go/ssa"
@@ -54,6 +55,45 @@ func (x *Exec) lastNowPtr() SV {
 func (x *Exec) modelCall(st *State, fr *Frame, ci *ssa.Call, name string, args []SV) (SV, bool) {
 	boolT := types.Typ[types.Bool]
 	switch name {
+	case "(*sync.Cond).Wait":
+		// monitor reasoning (A14): the lock is released, so everything the monitor protects may change,
+		// but every other critical section re-establishes the monitor invariant before releasing the lock.
+		c := x.contractFor(fr.fn)
+		if c == nil || len(c.waitinvs) == 0 {
+			return SV{}, false
+		}
+		x.modelled["sync.Cond.Wait: releases and re-acquires the monitor lock atomically; the whole heap is havocked and the function's 'waitinv' monitor invariant is asserted before and assumed after (A14)"] = true
+		mk := func() *Env {
+			env := &Env{x: x, st: st, oldSt: st.entry, vars: map[string]SV{}, pkg: fr.fn.Pkg.Pkg}
+			if fr.fn == x.target {
+				for k, v := range st.lets {
+					env.vars[k] = v
+				}
+			}
+			env.lookup = x.localResolver(st, fr, fr.block)
+			return env
+		}
+		env := mk()
+		for i, inv := range c.waitinvs {
+			t, err := env.EvalBool(inv.expr)
+			if err != nil {
+				panic(abortErr{fmt.Sprintf("%s:%d: waitinv %s: %v", inv.file, inv.line, inv.text, err)})
+			}
+			oname := fmt.Sprintf("wait-inv:%s:%s#%d", x.targetName(), relName(fr.fn), i+1)
+			x.oblige(st, oname, "wait-inv", inv.text, ci.Pos(), t)
+		}
+		st.havocAll()
+		env = mk()
+		for _, inv := range c.waitinvs {
+			t, err := env.EvalBool(inv.expr)
+			if err != nil {
+				panic(abortErr{err.Error()})
+			}
+			st.assume(t)
+		}
+		st.waitSt = nil
+		st.waitSt = st.clone()
+		return SV{ty: ci.Type()}, true
 	case "time.Now":
 		x.modelled["time.Now: fresh instant, recorded in ghost time.lastNow; monotone non-decreasing"] = true
 		n := mkVar(freshName("now"), I64)
@@ -158,7 +198,7 @@ func (x *Exec) bytesEqual(st *State, fr *Frame, ci *ssa.Call, a, b SV, asInt boo
 		}
 	} else {
 		j := mkBound(freshName("j"), I64)
-		all := Forall([]*Term{j}, Implies(BvCmp("bvult", j, la),
+		all := Forall([]*Term{j}, Implies(idxIn(j, la),
 			Eq(x.sliceElem(st, a, j).t(), x.sliceElem(st, b, j).t())))
 		eq = And(Eq(la, lb), all)
 	}
